@@ -144,6 +144,14 @@ def _space_for(algo, want_supported):
       return spaces.flat_space(2, 4, kinds=('DOUBLE',))
     if algo in ('bocs', 'harmonica'):
       return spaces.flat_space(1, 5, kinds=('BOOL',))
+    if algo in GP:
+      # GP models treat CATEGORICAL/BOOL (index features) and continuified
+      # numeric parameters in two separate arrays: make both frequent.
+      return st.one_of(
+          _generic_space(),
+          spaces.flat_space(2, 4, kinds=('CATEGORICAL', 'BOOL', 'DOUBLE')),
+          spaces.flat_space(2, 4, kinds=('CATEGORICAL', 'BOOL', 'INTEGER',
+                                         'DISCRETE')))
     return _generic_space()
   cond = spaces.conditional_space(max_depth=2)
   if algo == 'cmaes':
